@@ -281,6 +281,8 @@ let dispatch (fn : string) (copy : string) (a : arg list) : out list res =
   (* fips202.rs *)
   | "shake256", [outlen; inp] ->
     let n = geti outlen in shake256 (zeros (int_of_z n)) n (getb inp) (zlen (getb inp)) >>= fun o -> ret [ob o]
+  | "shake256_inlen", [outlen; inp; inlen] ->
+    let n = geti outlen in shake256 (zeros (int_of_z n)) n (getb inp) (geti inlen) >>= fun o -> ret [ob o]
   | "shake256_hist", ops -> shake_hist false kinit ops [] >>= fun outs -> ret outs
   | "shake128_hist", ops -> shake_hist true kinit ops [] >>= fun outs -> ret outs
   | "sweep", [AInts [fnid]; fixed; lo; hi] ->
